@@ -32,4 +32,33 @@ def buggyOffsets : List Nat → List Nat
 /-- cumulative offsets: offset of layer k = total size of the layers before it -/
 def cumOffsets (sizes : List Nat) : List Nat := (List.range sizes.length).map (fun k => (sizes.take k).sum)
 
+/-! ### the ansatz object: recorded parameter vector and circuit, under `set_var_params` / `update_var_params` histories -/
+
+/-- what the caller can observe of an ansatz: the recorded vector and the parameters the circuit holds -/
+structure Obj (V C : Type) where
+  var : V
+  circ : C
+
+inductive Call (V : Type) where
+  | set (θ : V)        -- `set_var_params`: records the vector, leaves the circuit alone
+  | update (θ : V)     -- `update_var_params`: records the vector and writes it into the circuit
+
+/-- `write c θ`: the in-place update of the circuit parameters (for the block layout: `updateBlock`) -/
+def Obj.step {V C : Type} (write : C → V → C) (o : Obj V C) : Call V → Obj V C
+  | .set θ => { o with var := θ }
+  | .update θ => { var := θ, circ := write o.circ θ }
+
+def Obj.run {V C : Type} (write : C → V → C) (o : Obj V C) (cs : List (Call V)) : Obj V C := cs.foldl (Obj.step write) o
+
+/-- the vector of the last `update` of a history (`θ0` when there was none) -/
+def lastUpdate {V : Type} (θ0 : V) : List (Call V) → V
+  | [] => θ0
+  | .set _ :: cs => lastUpdate θ0 cs
+  | .update θ :: cs => lastUpdate θ cs
+
+/-- a variant with the shortcut "nothing to do when the vector equals the recorded one" -/
+def Obj.stepSkip {V C : Type} [DecidableEq V] (write : C → V → C) (o : Obj V C) : Call V → Obj V C
+  | .set θ => { o with var := θ }
+  | .update θ => if θ = o.var then o else { var := θ, circ := write o.circ θ }
+
 end Tangelo.AnsatzUpdate
